@@ -30,9 +30,9 @@ theorem C05_sorted (L : OrderLaws α) (S : MonoSqrt α) (chk : Bool) (alg : Alg)
     (st' : State α) (d' : Dendrogram α) (M' : Mat α)
     (h : runWith chk alg m st d data n = .ok (st', d', M')) :
     (heights d'.steps).Pairwise HLe := by
-  rcases runWith_tail chk alg m st d data n st' d' M' h with h0 | ⟨raw, uf, rel, hrel, rfl⟩
+  rcases runWith_tail chk alg m st d data n st' d' M' h with h0 | ⟨raw, uf0, uf, rel, hrel, rfl⟩
   · simp [heights, h0]
-  · exact sqrtSteps_sorted S m rel (relabel_sorted L m hm raw rel uf hrel)
+  · exact sqrtSteps_sorted S m rel (relabel_sorted L m hm raw rel uf0 uf hrel)
 
 theorem C05_tables :
     (∀ m : Method, m.requiresSorting = false ↔ (m = .centroid ∨ m = .median)) ∧
@@ -44,7 +44,7 @@ theorem C05_tables :
 
 /-- Centroid / median: heights come out in the order the merges were pushed. -/
 theorem C05_unsorted_order (m : Method) (hm : m.requiresSorting = false) (raw rel : Dendrogram α)
-    (uf : UF) (h : relabel m raw = .ok (uf, rel)) :
+    (uf0 uf : UF) (h : relabel m uf0 raw = .ok (uf, rel)) :
     heights (sqrtSteps m rel).steps =
       (heights raw.steps).map (fun x => if m.onSquares then Num.sqrt x else x) := by
   unfold relabel at h
